@@ -328,6 +328,11 @@ pub fn main(cmd: &str, args: &[String]) {
     match cmd {
         "conv" => conv(args),
         "buckets" => buckets(args),
+        "offset-reps" => {
+            for r in offset_reps() {
+                println!("{}", r);
+            }
+        }
         _ => probe(cmd, args),
     }
 }
